@@ -250,6 +250,10 @@ func CheckC02(e *Env) int {
 	progs = append(progs, counterpartFamily("cp", e.Seed, e.tierN(2, 1))...)
 	// a parameter named like a later local of an assignable type
 	progs = append(progs, paramLocalCollisionFamily()...)
+	// nothing to construct: the designated argument comes back, not another assignable one
+	progs = append(progs, passThroughArgsFamily()...)
+	// same-named packages with same-named members
+	progs = append(progs, twinPackagesFamily()...)
 	// interface, concrete type and the concrete type's input requested in every order
 	progs = append(progs, bindOrderFamily("bw", e.Seed, e.tierN(6, 1))...)
 	results := RunPool(e, progs, PoolOpts{Execute: true, Name: "c02"})
